@@ -78,7 +78,10 @@ static void run_library(const Setup &s, int cap, Exec &ex){
 }
 
 // ---------------------------------------------------------------- reference model stepping on the logged values
-struct RefResult { bool ok = true; std::string sig, detail; std::vector<double> cur; int trials = 0, accepted = 0; bool cap_in_linesearch = false, converged = false; };
+// slack: what the passed descent tests allow the objective to grow in total. A passed test guarantees f(y) <= f(x) + <g, y-x> + |y-x|^2/(2 stepsize) + 1e-12;
+// for an exact projection of x - stepsize g onto a convex set containing x the middle terms are <= 0 (hence "descent"), with a projection that is only exact up
+// to rounding they can be a positive multiple of |g| * rounding error. The slack accumulates 1e-12 + max(0, <g, y-x> + |y-x|^2/(2 stepsize)) + rounding of f per accepted step.
+struct RefResult { bool ok = true; std::string sig, detail; std::vector<double> cur; int trials = 0, accepted = 0; bool cap_in_linesearch = false, converged = false; double slack = 0; };
 #define RFAIL(S, D) do{ r.ok = false; r.sig = (S); r.detail = (D); return r; }while(0)
 static RefResult replay_adaptive(const Setup &s, int cap, const Exec &ex){
     RefResult r; size_t d = (size_t) s.dims(); const Log &L = ex.log; size_t pos = 0; std::vector<double> start = start_point(s);
@@ -107,7 +110,7 @@ static RefResult replay_adaptive(const Setup &s, int cap, const Exec &ex){
             // documented descent test: f(y) - f(x) - <g, y - x> <= |y - x|^2 / (2 stepsize) (+ tolerance)
             double lhs = 0, rhs = 0; lhs += fy - f_cur; for(size_t j=0;j<d;j++){ double delta = y[j] - cur[j]; rhs += delta * delta / (2.0 * step); lhs -= g_cur[j] * delta; }
             step /= s.dec; performed++; r.trials = performed;
-            if (!(lhs > rhs + DESCENT_TOL)) break;
+            if (!(lhs > rhs + DESCENT_TOL)){ double first = 0, quad = 0; for(size_t j=0;j<d;j++){ double delta = y[j] - cur[j]; first += g_cur[j] * delta; quad += delta * delta / (2.0 * step * s.dec); } r.slack += DESCENT_TOL + std::max(0.0, first + quad) + 8 * 2.3e-16 * (std::fabs(fy) + std::fabs(f_cur)); break; }
         }
         if (stop) break;
         prev = cur; cur = y; f_cur = fy; step *= s.dec; r.accepted++;
@@ -165,13 +168,13 @@ static void exec_setup(const Setup &s, Delta &d){
             d.outcome(std::string(vn) + (r.converged ? "/converged" : r.cap_in_linesearch ? "/cap-hit-inside-line-search" : cap == 0 ? "/cap-0" : "/cap-hit-after-accepted-step"));
         }
         if (s.variant == 0){
-            double fx = objective(s.obj, ex.x.data()); double slack = DESCENT_TOL * (cap + 2) + 1e-13 * std::fabs(fx);
+            double fx = objective(s.obj, ex.x.data()); double slack = r.slack + DESCENT_TOL;
             // the result is the starting point or a value returned by the projection (for the variant without projection: a trial point)
             d.evals++;
             bool found = same_bits_n(ex.x.data(), start.data(), dm);
             for(auto &e : ex.log.ev){ if (found) break; if (e.t == (s.proj != 0 ? 'P' : 'F')){ const double *p = (s.proj != 0) ? ex.log.y(e) : ex.log.x(e); if (same_bits_n(p, ex.x.data(), dm)) found = true; } }
             if (!found) d.viol("C19:result-not-projection-output", case_json(s, cap), "cap " + std::to_string(cap) + ": the state " + vstr(ex.x) + " is neither the start nor any point returned by the projection");
-            if (feasible){
+            if (feasible && r.ok){
                 d.evals += 2;
                 if (!(fx <= f_start + slack)) d.viol("C19:worse-than-start:adaptive", case_json(s, cap), "cap " + std::to_string(cap) + ": f(result) = " + vf::jnum(fx) + " > f(start) = " + vf::jnum(f_start));
                 if (best_cap >= 0 && !(fx <= best_f + slack)) d.viol("C19:cap-monotonicity:adaptive", case_json(s, cap, best_cap), "cap " + std::to_string(cap) + " returns " + vstr(ex.x) + " with f = " + vf::jnum(fx) + " but the smaller cap " + std::to_string(best_cap) + " returned f = " + vf::jnum(best_f));
